@@ -180,6 +180,13 @@ class TorchBackend(BaseBackend):
         then DDE simulation on the torch backend should use ``solver='scipy'``
         (see :meth:`_solve_scipy_dde` below).
         """
+        # delayed models are not supported by this solver (see docstring): refuse instead of integrating against a
+        # history that is never updated
+        from ..base.base_backend import DDEHistory
+        if len(args) > 0 and isinstance(args[0], DDEHistory):
+            raise NotImplementedError("TorchBackend does not support solver='euler' for models with delays "
+                                      "(the DDE history would never be updated). Use solver='scipy' instead.")
+
         # preparations for fixed step-size integration
         idx = 0
         steps = int(np.round(T / dt))
